@@ -2125,7 +2125,8 @@ export class Element implements NodeCast {
       parent,
       subtreeSlotStart,
       subtreeSlotEnd,
-      posIndex + newChildList.length - 1,
+      // the index of the last inserted child (a negative `posIndex` means appending)
+      (relChild ? posIndex : childNodes.length - newChildList.length) + newChildList.length - 1,
       false,
     )
 
